@@ -28,6 +28,7 @@ ROOT_PRESETS = [
     {"rx": "ppg_c", "dyn": "probeA"}, {"rx": "psi4_h", "dyn": "bw", "scalar": True, "stable": [0, 1, 2, 3]},
     {"rx": "gpp_c", "stable": [0, 1, 2], "scalar": True, "dyn": "bw_ff"},
     {"rx": "gpp_h", "dyn": "probeX"}, {"rx": "d3pi_h+r", "align": "dpd2", "dyn": "probeX"}, {"rx": "gpp_c", "dyn": "probeX", "scalar": True},
+    {"rx": "lc_h#1", "dyn": "bw"}, {"rx": "gpp_h@x", "dyn": "bw_ff"}, {"rx": "lc_h@x+r", "align": "dpd1", "dyn": "bw"},
     {"rx": "kkpi_h", "dyn": "bw"}, {"rx": "dkpp_h", "dyn": "bw_ffonly"}, {"rx": "dkpp_h+r", "align": "dpd3", "stable": [1, 2, 3]},
     {"rx": "etac_c", "dyn": "bw_ff", "scalar": True}, {"rx": "etac_c+r", "align": "dpd1", "dyn": "bw"},
 ]
